@@ -827,6 +827,10 @@ type c12Job struct {
 	RewriteRaw string `json:"rewrite_raw"` // JSON text of the new value
 	// role "bufevo": acknowledgement sequences for the real pipelineRecvAck goroutine
 	Evo []c12EvoJob `json:"evo"`
+	// role "relay": a real relay between a scripted client and a scripted server during its handshake
+	RelayClient [][]byte `json:"relay_client"` // what the client side sends while the relay waits for the ACT
+	RelayServer [][]byte `json:"relay_server"` // what the server side sends afterwards (the relay waits for the CFG)
+	WinServer   bool     `json:"win_server"`
 }
 
 func c12SelfHWM() int64 {
@@ -855,6 +859,8 @@ func c12Child(jobPath string) {
 	t0 := time.Now()
 	if job.Role == "server" {
 		res = c12ChildServer(&job, wire)
+	} else if job.Role == "relay" {
+		res = c12ChildRelay(&job)
 	} else if job.Role == "bufevo" {
 		c12ChildEvo(&job)
 		return
